@@ -14,3 +14,5 @@ func yieldVisits() []yieldVisit { return nil }
 func installYields(uint64, float64, ...string) func() { return func() {} }
 
 func setYieldAction(string, func(string)) {}
+
+func installLockNoise(uint64, float64) func() { return func() {} }
